@@ -4,6 +4,10 @@ import os
 import re
 import shutil
 
+import sys
+
+import sys as _sys
+
 import engine
 import realrun
 import render
@@ -21,6 +25,10 @@ def record_case(case):
     cfg = case.get('cfg') or {}
     bm = cfg.get('bytes', False)
     desc = case.get('desc') or engine.describe(case)
+    for pre in cfg.get('pre', []):          # named grammars that `desc` extends
+        bp = realrun.build(pre)
+        if bp[0] != 'ok':
+            return {'id': case['id'], 'desc': pre, 'build': list(bp), 'obs': [], 'events': []}
     b = realrun.build(desc)
     if b[0] != 'ok':
         return {'id': case['id'], 'desc': desc, 'build': list(b), 'obs': [], 'events': []}
@@ -50,6 +58,8 @@ def record_case(case):
     finally:
         rt.enable(False)
         events = rt.drain()
+        for nm in cfg.get('installed', []):
+            _sys.modules.pop(nm, None)
     if cfg.get('project'):
         # long traces: keep only the events of a few rules (plus each call's start rule); see Trace_Packrat!DepthOK
         keep = set(cfg['project'])
